@@ -884,6 +884,13 @@ def driver_advance_rule(chk, prog, roles, rule="ADVANCE"):
                 ok = ids == sorted([cur["id"], out["id"]])
         if ok:
             adv.append((st, seen_call))
+    # `for (cur = text; *cur; cur += n)`: the increment part runs after the body of every iteration, `continue` included
+    if loop["kind"] == "ForStmt" and len(raw) > 3 and raw[3]:
+        s0 = strip(raw[3])
+        if s0.get("kind") == "CompoundAssignOperator" and s0.get("opcode") == "+=":
+            l, r = strip(kids(s0)[0], casts=True), strip(kids(s0)[1], casts=True)
+            if l.get("referencedDecl", {}).get("id") == cur["id"] and r.get("referencedDecl", {}).get("id") == out["id"]:
+                adv.append((raw[3], True))
     chk.require(len(adv) == 1 and adv[0][1], rule, "%s/once-unconditional" % rule, loc_str(adv[0][0]) if adv else loc_str(loop),
                 "after the line-parser call the loop body advances the cursor by the reported count in one unconditional statement",
                 "%d such statements at the top level of the loop body" % len(adv))
@@ -898,7 +905,17 @@ def driver_advance_rule(chk, prog, roles, rule="ADVANCE"):
                 others.append(a)
             if i == out["id"] and not any(n is m for m in walk(call)) and not \
                     (decl_of_count is not None and any(n is m for m in walk(decl_of_count))):
-                others.append(a)
+                # a reset of the count to a constant at the top level of the body, before the call, is the same as declaring it there
+                reset = False
+                for st in top:
+                    if any(m is call for m in walk(st)):
+                        break
+                    s1 = strip(st)
+                    if s1.get("kind") == "BinaryOperator" and s1.get("opcode") == "=" and strip(kids(s1)[0], casts=True) is n and \
+                            ConstEval(prog).try_eval(kids(s1)[1]) is not None:
+                        reset = True
+                if not reset:
+                    others.append(a)
     chk.require(not others, rule, "%s/no-other-writer" % rule, loc_str(others[0].node) if others else loc_str(loop),
                 "inside the loop the cursor is written only by that statement and the count only by the line parser",
                 ", ".join("%s at %s" % (a.text, loc_str(a.node)) for a in others))
